@@ -10,7 +10,7 @@ use passage_adapters::strategy::StrategyAdapter;
 pub use proxy_header::ParseConfig;
 use proxy_header::io::ProxiedStream;
 use std::net::{IpAddr, SocketAddr};
-use std::sync::Arc;
+use std::sync::{Arc, Mutex};
 use std::time::Duration;
 use tokio::io::AsyncWriteExt;
 #[cfg(passage_verif)]
@@ -36,7 +36,7 @@ pub struct Listener<Stat, Disc, Filt, Stra, Auth, Loca> {
     authentication_adapter: Arc<Auth>,
     localization_adapter: Arc<Loca>,
     tracker: TaskTracker,
-    rate_limiter: Option<RateLimiter<IpAddr>>,
+    rate_limiter: Option<Arc<Mutex<RateLimiter<IpAddr>>>>,
     proxy_protocol: Option<ParseConfig>,
     connection_timeout: Duration,
     auth_secret: Option<Vec<u8>>,
@@ -79,7 +79,7 @@ where
     }
 
     pub fn with_rate_limiter(mut self, rate_limiter: Option<RateLimiter<IpAddr>>) -> Self {
-        self.rate_limiter = rate_limiter;
+        self.rate_limiter = rate_limiter.map(|rate_limiter| Arc::new(Mutex::new(rate_limiter)));
         self
     }
 
@@ -140,43 +140,8 @@ where
     async fn handle(&mut self, stream: TcpStream, addr: SocketAddr) {
         let connection_start = Instant::now();
 
-        let (mut stream, client_addr) = if let Some(proxy_config) = self.proxy_protocol {
-            match ProxiedStream::create_from_tokio(stream, proxy_config).await {
-                Ok(stream) => {
-                    let client_addr = stream
-                        .proxy_header()
-                        .proxied_address()
-                        .map(|address| address.source)
-                        .unwrap_or(addr);
-                    (stream, client_addr)
-                }
-                Err(e) => {
-                    debug!(
-                        cause = e.to_string(),
-                        addr = addr.to_string(),
-                        "failed to parse proxy protocol header, connection closed"
-                    );
-                    return;
-                }
-            }
-        } else {
-            (ProxiedStream::unproxied(stream), addr)
-        };
-        debug!(addr = %client_addr, "handling new connection");
-
-        // check rate limiter (use real client address)
-        if let Some(rate_limiter) = &mut self.rate_limiter
-            && !rate_limiter.enqueue(client_addr.ip())
-        {
-            info!(addr = client_addr.to_string(), "rate limited client");
-            metrics::request_duration::record(connection_start, "rejected");
-
-            if let Err(e) = stream.shutdown().await {
-                debug!(cause = e.to_string(), "failed to close a client connection");
-            }
-            return;
-        }
-
+        let proxy_protocol = self.proxy_protocol;
+        let rate_limiter = self.rate_limiter.clone();
         let connection_timeout = self.connection_timeout;
         let status_adapter = self.status_adapter.clone();
         let discovery_adapter = self.discovery_adapter.clone();
@@ -188,8 +153,64 @@ where
         let max_packet_length = self.max_packet_length;
         let auth_cookie_expiry = self.auth_cookie_expiry;
 
-        // create a new connection and run protocol
+        // handle everything that waits for the client in the task of the connection, such that a
+        // client that is slow to send its PROXY protocol header never delays accepting other clients
         self.tracker.spawn(async move {
+            let (mut stream, client_addr) = if let Some(proxy_config) = proxy_protocol {
+                // the header has to arrive within the connection timeout
+                let proxied = timeout(
+                    connection_timeout,
+                    ProxiedStream::create_from_tokio(stream, proxy_config),
+                )
+                .await;
+                match proxied {
+                    Ok(Ok(stream)) => {
+                        let client_addr = stream
+                            .proxy_header()
+                            .proxied_address()
+                            .map(|address| address.source)
+                            .unwrap_or(addr);
+                        (stream, client_addr)
+                    }
+                    Ok(Err(e)) => {
+                        debug!(
+                            cause = e.to_string(),
+                            addr = addr.to_string(),
+                            "failed to parse proxy protocol header, connection closed"
+                        );
+                        return;
+                    }
+                    Err(_) => {
+                        debug!(
+                            addr = addr.to_string(),
+                            "timed out waiting for proxy protocol header, connection closed"
+                        );
+                        return;
+                    }
+                }
+            } else {
+                (ProxiedStream::unproxied(stream), addr)
+            };
+            debug!(addr = %client_addr, "handling new connection");
+
+            // check rate limiter (use real client address)
+            let rate_limited = rate_limiter.as_ref().is_some_and(|rate_limiter| {
+                !rate_limiter
+                    .lock()
+                    .expect("rate limiter lock poisoned")
+                    .enqueue(client_addr.ip())
+            });
+            if rate_limited {
+                info!(addr = client_addr.to_string(), "rate limited client");
+                metrics::request_duration::record(connection_start, "rejected");
+
+                if let Err(e) = stream.shutdown().await {
+                    debug!(cause = e.to_string(), "failed to close a client connection");
+                }
+                return;
+            }
+
+            // create a new connection and run protocol
             metrics::open_connections::inc();
             let mut connection = Connection::new(
                 &mut stream,
